@@ -147,7 +147,8 @@ theorem handlerOf_mode {name : String} {hd : Handler} (hn : handlerOf name = som
   · unfold handleSubmoduleLog at e
     split at e
     · cases e; exact hm
-    · exact handleAdditionalCases_modeInfo hco hm e
+    · rw [pendingDiffName_co hco ((flushMP_modeInfo m).trans hm), handleAdditionalCases_flushMP] at e
+      exact handleAdditionalCases_modeInfo hco hm e
   · unfold handleSubmoduleShort at e
     simp only [hco, Bool.or_true, if_true] at e
     cases e; exact hm
@@ -300,7 +301,7 @@ theorem handlerOf_ts2_any {name : String} {hd : Handler} (hn : handlerOf name = 
          | exact handleDiffHeaderDiff_ts2 ps hm e | exact (handleFileOperation_ts ps e).to2
          | exact (handleMinusLine_ts2 ps e).1 | exact (handlePlusLine_ts ps e).to2
          | exact (handleHunkHeader_ts e).to2 | exact (handleModeLine_ts ps e).to2
-         | exact handleMisc_ts2 ps e | exact (handleSubmoduleLog_ts ps e).to2
+         | exact handleMisc_ts2 ps e | exact (handleSubmoduleLog_ts ps hm e).to2
          | exact (handleSubmoduleShort_ts ps e).to2 | exact (handleMergeConflict_ts ps e).to2
          | exact (handleHunkLine_ts2 ps g hb hc e).1 | exact (handleGitShowFile_ts e).to2
          | exact (handleBlame_ts g e).to2 | exact (handleGrep_ts_any g e).to2
